@@ -49,6 +49,123 @@ func (w *World) globalWriters() map[*ssa.Global][]string {
 	return w.gWriters
 }
 
+// tableWriters: where the contents of the map/slice global g may change outside package
+// initialisers: a map update or delete, an element store, or the loaded value escaping to anything
+// but a look-up, a range, an index read, len/cap, or a read-only library call. "" if nowhere.
+func (w *World) tableWriters(g *ssa.Global) string {
+	if w.tWriters == nil {
+		w.tWriters = map[*ssa.Global]string{}
+	} else if s, ok := w.tWriters[g]; ok {
+		return s
+	}
+	res := ""
+	var readOnly func(v ssa.Value, fn *ssa.Function, depth int) string
+	readOnly = func(v ssa.Value, fn *ssa.Function, depth int) string {
+		if v.Referrers() == nil || depth > 4 {
+			return ""
+		}
+		for _, ref := range *v.Referrers() {
+			where := FuncKey(fn) + " at " + w.Pos(InstrPos(ref))
+			switch x := ref.(type) {
+			case *ssa.Lookup, *ssa.Range, *ssa.DebugRef, *ssa.Index:
+			case *ssa.Next:
+			case *ssa.MapUpdate:
+				if x.Map == v {
+					return where
+				}
+			case *ssa.IndexAddr:
+				// element address: reads only
+				if x.Referrers() != nil {
+					for _, r2 := range *x.Referrers() {
+						switch y := r2.(type) {
+						case *ssa.Store:
+							if y.Addr == x {
+								return where
+							}
+						case *ssa.UnOp, *ssa.DebugRef:
+						default:
+							// the element (a nested slice) is handed on: follow one level
+							if val, ok := r2.(ssa.Value); ok {
+								if s := readOnly(val, fn, depth+1); s != "" {
+									return s
+								}
+							}
+						}
+					}
+				}
+			case *ssa.UnOp:
+				if s := readOnly(x, fn, depth+1); s != "" {
+					return s
+				}
+			case *ssa.Slice:
+				if s := readOnly(x, fn, depth+1); s != "" {
+					return s
+				}
+			case *ssa.Call:
+				if bi, ok := x.Call.Value.(*ssa.Builtin); ok {
+					switch bi.Name() {
+					case "len", "cap":
+						continue
+					case "delete":
+						return where
+					case "copy", "append":
+						if len(x.Call.Args) == 2 && x.Call.Args[1] == v && x.Call.Args[0] != v {
+							continue
+						}
+						return where
+					}
+					return where
+				}
+				if f := x.Call.StaticCallee(); f != nil && f.Pkg != nil {
+					switch f.Pkg.Pkg.Path() + "." + f.Name() {
+					case "bytes.Equal", "bytes.Compare", "bytes.HasPrefix", "bytes.Contains", "crypto/hmac.Equal", "crypto/subtle.ConstantTimeCompare", "encoding/hex.EncodeToString", "sort.SearchInts":
+						continue
+					}
+				}
+				return where
+			case *ssa.Phi:
+				if s := readOnly(x, fn, depth+1); s != "" {
+					return s
+				}
+			case *ssa.BinOp: // comparison with nil
+			case *ssa.If:
+			default:
+				return where
+			}
+		}
+		return ""
+	}
+	for _, fn := range w.allFns {
+		if res != "" {
+			break
+		}
+		for _, b := range fn.Blocks {
+			for _, in := range b.Instrs {
+				for _, op := range in.Operands(nil) {
+					if *op != ssa.Value(g) {
+						continue
+					}
+					switch x := in.(type) {
+					case *ssa.UnOp:
+						if s := readOnly(x, fn, 0); s != "" {
+							res = s
+						}
+					case *ssa.Store:
+						if x.Addr == ssa.Value(g) {
+							res = FuncKey(fn) + " at " + w.Pos(InstrPos(in))
+						}
+					case *ssa.DebugRef:
+					default:
+						res = FuncKey(fn) + " at " + w.Pos(InstrPos(in))
+					}
+				}
+			}
+		}
+	}
+	w.tWriters[g] = res
+	return res
+}
+
 func isTableType(t types.Type) (string, bool) {
 	if p, ok := t.(*types.Pointer); ok {
 		t = p.Elem()
@@ -68,14 +185,27 @@ func (w *World) mutableGlobal(g *ssa.Global) (bool, string) {
 		return false, ""
 	}
 	elem := g.Type().(*types.Pointer).Elem()
-	if kind, ok := isTableType(elem); ok {
+	if kind, ok := isTableType(elem); ok && kind == "sync.Map" {
 		return true, kind
 	}
 	if wr := w.globalWriters()[g]; len(wr) > 0 {
 		return true, "variable written by " + strings.Join(wr, ", ")
 	}
+	// a map or slice that is filled by the package initialiser and only read afterwards is a
+	// constant table (a look-up table of weak keys, of checksum ids …), not state
+	if kind, ok := isTableType(elem); ok {
+		if wr := w.tableWriters(g); wr != "" {
+			return true, kind + " written at " + wr
+		}
+		return false, ""
+	}
 	switch u := elem.Underlying().(type) {
-	case *types.Slice, *types.Chan:
+	case *types.Slice:
+		if wr := w.tableWriters(g); wr != "" {
+			return true, "shared " + u.String() + " written at " + wr
+		}
+		return false, ""
+	case *types.Chan:
 		return true, "shared " + u.String()
 	case *types.Pointer:
 		// a pointer to a mutable object (a cache, a pool): state unless it is nil forever
